@@ -37,6 +37,64 @@ ASSUMPTIONS = ["get_atom_coord / coord_subset hand out views / copies of the coo
 FLOORS = {"C16.R6": 2, "C16.R1": 3, "C16.R2": 3, "C16.R3": 2, "C16.R4": 4, "C16.R5": 4}
 
 
+def _per_count(f):
+    """Copy of Func `f` whose placement dispatch has one arm per hydrogen count: an arm that serves several counts
+    (`hs_to_add in (3, 4)`) is specialised for each of them (tests on the count inside it are decided)."""
+    import copy as _copy
+    import dataclasses as _dc
+
+    from ..canon import specialize
+
+    node = _copy.deepcopy(f.node)
+    done = False
+
+    def merged(t):
+        return isinstance(t, ast.Compare) and len(t.ops) == 1 and isinstance(t.ops[0], ast.In) and norm(t.left) == "hs_to_add"
+
+    def chain_tests(s_):
+        out = []
+        while isinstance(s_, ast.If):
+            out.append(s_.test)
+            s_ = s_.orelse[0] if len(s_.orelse) == 1 and isinstance(s_.orelse[0], ast.If) else None
+        return out
+
+    def rewrite(blk):
+        nonlocal done
+        for i, s_ in enumerate(blk):
+            if isinstance(s_, ast.If) and norm(s_.test).startswith("hs_to_add") and any(merged(t) for t in chain_tests(s_)):
+                arms = [(k, specialize([s_], "hs_to_add", k, {})) for k in (1, 2, 3, 4)]
+                other = specialize([s_], "hs_to_add", 99, {})
+                new = None
+                cur = None
+                for k, body in arms:
+                    if not body:
+                        continue
+                    g = ast.If(ast.Compare(ast.Name("hs_to_add", ast.Load()), [ast.Eq()], [ast.Constant(k)]), body, [])
+                    ast.copy_location(g, s_)
+                    if new is None:
+                        new = cur = g
+                    else:
+                        cur.orelse = [g]
+                        cur = g
+                if new is not None:
+                    cur.orelse = other or []
+                    blk[i] = new
+                    done = True
+                return
+            for fld in ("body", "orelse"):
+                b = getattr(s_, fld, None)
+                if isinstance(b, list) and b and isinstance(b[0], ast.stmt):
+                    rewrite(b)
+
+    rewrite(node.body)
+    if not done:
+        return f
+    ast.fix_missing_locations(node)
+    g = _dc.replace(f)
+    g.node = node
+    return g
+
+
 def run(chk):
     prog = chk.prog
     f = prog.func(f"{ST}:Structure.add_implicit_hydrogens")
@@ -47,6 +105,7 @@ def run(chk):
 
     f = ifchain(f, {"hs_to_add"})  # these rules read the placement dispatch as an if / elif chain
     f = sink_tail(f, lambda t: norm(t).startswith("hs_to_add =="))  # a shared attach loop after the chain belongs to every branch
+    f = _per_count(f)  # `case 3 | 4:` with an inner `if hs_to_add == 3` is two placements: one chain arm per count
     chk.call(r1_only_hydrogens, chk, f)
     branches = chk.call(r2_pairing, chk, f)
     if branches is not chk.REFUSED:
@@ -69,7 +128,61 @@ def _loop(f):
     return loops[0]
 
 
+def r1_shared_tables(chk, f):
+    """No in-place operation on a module-level table: `sites = TETRAHEDRON; sites *= L; sites += a_coord` scales and shifts the
+    constant itself - the first atom is placed correctly, every later placement in the same process starts from a corrupted table.
+    A local is safe to modify in place only if every value it can hold is a fresh array (`.copy()`, `np.array(..)`, arithmetic, a product)."""
+    asg = assignments(f.node)
+    params = set(f.params())
+
+    def shared(e, depth=0):
+        """the module-level name `e` may alias (None when fresh)"""
+        if depth > 4:
+            return None
+        if isinstance(e, ast.Name):
+            if e.id in params:
+                return None
+            if e.id in asg:
+                for v in asg[e.id]:
+                    if isinstance(v, ast.AST) and not (isinstance(v, ast.BinOp) and e.id in names_in(v)):
+                        r = shared(v, depth + 1)
+                        if r:
+                            return r
+                return None
+            return e.id if e.id.isupper() or e.id.lstrip("_").isupper() else None
+        if isinstance(e, ast.Subscript):          # basic slicing / indexing of an array is a view
+            return shared(e.value, depth + 1) if not isinstance(e.value, (ast.BinOp, ast.Call)) else None
+        if isinstance(e, ast.Call) and isinstance(e.func, ast.Attribute) and e.func.attr in ("view", "reshape", "ravel", "T", "transpose", "squeeze") :
+            return shared(e.func.value, depth + 1)
+        if isinstance(e, ast.Call) and (call_name(e) or "").split(".")[-1] in ("asarray", "asanyarray") and e.args:
+            return shared(e.args[0], depth + 1)
+        if isinstance(e, ast.IfExp):
+            return shared(e.body, depth + 1) or shared(e.orelse, depth + 1)
+        return None
+
+    n = 0
+    for s_ in walk_no_nested(f.node):
+        tgt = None
+        if isinstance(s_, ast.AugAssign):
+            tgt = s_.target
+        elif isinstance(s_, ast.Assign) and isinstance(s_.targets[0], ast.Subscript):
+            tgt = s_.targets[0]
+        if tgt is None:
+            continue
+        base = tgt
+        while isinstance(base, ast.Subscript):
+            base = base.value
+        if not isinstance(base, ast.Name):
+            continue
+        n += 1
+        who = shared(base)
+        chk.decide(who is None, "C16.R1", f"{f.key}:in-place:{base.id}", f.where(s_), f"`{short(s_, 40)}` works on an array of its own",
+                   f"`{short(s_, 50)}` modifies `{base.id}` in place, and `{base.id}` can be the module-level table `{who}` itself (bound without a copy): the table is changed "
+                   "for every later call in the process - hydrogens placed afterwards sit at scaled, shifted positions")
+
+
 def r1_only_hydrogens(chk, f):
+    chk.call(r1_shared_tables, chk, f)
     eff = c12.effects(chk.prog)
     allowed = {"add_atom", "append_bond"}
     bad = []
@@ -261,10 +374,46 @@ def r4_formula(chk, f):
     ok = all(v == g - 10 for g, v in tbl.items()) and {13, 14, 15, 16} <= set(tbl)
     chk.decide(ok, "C16.R4", "molli.chem.atom:VALENCE_ELECTRONS", f"{m.relpath}:{node.lineno}", f"{tbl}", f"VALENCE_ELECTRONS = {tbl}: a main-group atom of group g has g - 10 valence electrons")
     ve = prog.func("molli.chem.atom:Atom.valence_electrons", "getter")
-    chk.decide("VALENCE_ELECTRONS[self.element.group]" in norm(ve.node), "C16.R4", f"{ve.key}:table-lookup", ve.where(), "VALENCE_ELECTRONS[element.group]", "valence_electrons is not looked up by the element's group")
+    direct = "VALENCE_ELECTRONS[self.element.group]" in norm(ve.node)
+    if not direct and "self.element.group" in norm(ve.node) and not any(isinstance(c_, ast.Constant) and isinstance(c_.value, int) for c_ in ast.walk(ve.node)):
+        # looked up by the group, but in a table derived from VALENCE_ELECTRONS (records per group, ...): which column of the derived
+        # table holds the valence electrons is not read here
+        raise AnalysisError(f"{ve.key}: valence_electrons is looked up by the element's group in a table other than VALENCE_ELECTRONS - the derived table is not decided")
+    chk.decide(direct, "C16.R4", f"{ve.key}:table-lookup", ve.where(), "VALENCE_ELECTRONS[element.group]", "valence_electrons is not looked up by the element's group")
+
+
+def _value_form(f):
+    """Copy of Func `f` in which `x op= e` on a plain local reads `x = x op e`, and a local re-bound in one block gets one name
+    per binding (ssa): what a coordinate *is* can then be spelled out by substitution.  (Whether the in-place form touches a
+    shared array is R1's question, not this rule's.)"""
+    import copy as _copy
+    import dataclasses as _dc
+
+    from ..normalize import ssa_straightline
+
+    node = _copy.deepcopy(f.node)
+    changed = False
+
+    class A(ast.NodeTransformer):
+        def visit_AugAssign(self, n):
+            nonlocal changed
+            if isinstance(n.target, ast.Name):
+                changed = True
+                return ast.copy_location(ast.Assign([ast.Name(n.target.id, ast.Store())], ast.BinOp(ast.Name(n.target.id, ast.Load()), n.op, n.value)), n)
+            return n
+
+    node = A().visit(node)
+    if not changed:
+        return f
+    ast.fix_missing_locations(node)
+    ssa_straightline(node)
+    g = _dc.replace(f)
+    g.node = node
+    return g
 
 
 def r5_length(chk, f):
+    f = _value_form(f)
     loop = _loop(f)
     asg = assignments(f.node)
     atomvar = norm(loop.target)
@@ -298,6 +447,8 @@ def r5_length(chk, f):
                     dd = dominating_def(f.node, c, n.id)
                     if dd is not None:
                         todo.append(dd)
+                        if n.id in names_in(dd):   # `x = x * L`: what x was before counts as well
+                            todo.extend(v for v in asg.get(n.id, []) if isinstance(v, ast.AST))
                         continue
                     for v in asg.get(n.id, []):
                         if isinstance(v, ast.AST):
@@ -305,33 +456,40 @@ def r5_length(chk, f):
                         elif isinstance(v, tuple) and isinstance(v[1], ast.AST):
                             todo.append(v[1])
         # the position must enter as an additive offset: coordinate = a_coord +/- (... * L)
-        def resolve(e, depth=0):
-            if depth > 6:
-                return e
+        owner = {}
+        for s_ in ast.walk(f.node):
+            if isinstance(s_, ast.Assign):
+                owner[id(s_.value)] = s_
+
+        def resolve(e, depth=0, site=None):
+            """(expression, the statement it was taken from): a name is read as of `site` - `x = x * L` reads the x bound before it"""
+            site = site if site is not None else c
+            if depth > 8:
+                return e, site
             if isinstance(e, ast.Subscript):
-                return resolve(e.value, depth + 1)
+                return resolve(e.value, depth + 1, site)
             if isinstance(e, ast.Name):
                 if e.id in enclosing:
-                    return resolve(enclosing[e.id], depth + 1)
-                dd = dominating_def(f.node, c, e.id) if e.id not in ("a_coord", "L", "vec") else None
+                    return resolve(enclosing[e.id], depth + 1, site)
+                dd = dominating_def(f.node, site, e.id) if e.id not in ("a_coord", "L", "vec") else None
                 if dd is not None:
-                    return resolve(dd, depth + 1)
+                    return resolve(dd, depth + 1, owner.get(id(dd), site))
                 vals = [v for v in asg.get(e.id, []) if isinstance(v, ast.AST)]
-                if len(vals) == 1 and e.id not in ("a_coord", "L", "vec"):
-                    return resolve(vals[0], depth + 1)
-            return e
+                if len(vals) == 1 and e.id not in ("a_coord", "L", "vec") and e.id not in names_in(vals[0]):
+                    return resolve(vals[0], depth + 1, owner.get(id(vals[0]), site))
+            return e, site
 
-        def terms(e, out):
-            e = resolve(e)
-            if isinstance(e, ast.BinOp) and isinstance(e.op, (ast.Add, ast.Sub)):
-                terms(e.left, out)
-                terms(e.right, out)
+        def terms(e, out, site=None, depth=0):
+            e, site = resolve(e, 0, site)
+            if depth < 12 and isinstance(e, ast.BinOp) and isinstance(e.op, (ast.Add, ast.Sub)):
+                terms(e.left, out, site, depth + 1)
+                terms(e.right, out, site, depth + 1)
             else:
                 out.append(e)
             return out
 
         # a literal list of positions: every element must be such an offset
-        rc = resolve(coord) if coord is not None else None
+        rc = resolve(coord)[0] if coord is not None else None
         exprs = list(rc.elts) if isinstance(rc, (ast.List, ast.Tuple)) and rc.elts else ([coord] if coord is not None else [])
         offset_ok = bool(exprs)
         for ex in exprs:
